@@ -150,8 +150,9 @@ class CallMixin:
         """bounded unfolding of a recursively defined spec function (sound: every unfolding is the
         definition; the opaque remainder is an uninterpreted application of the same arguments)"""
         ints = [a for a in args if self.is_int(a) or isinstance(a, SBool)]
-        if (ints and all(not isinstance(a, Sym) for a in ints)) or all(not isinstance(a, (Sym, Ref)) for a in args):
-            return NotImplemented                   # concrete recursion indices: plain execution
+        symlen = any(isinstance(a, Ref) and isinstance(self.p.deref(a), HList) and self.p.deref(a).pre is not None for a in args)
+        if not symlen and ((ints and all(not isinstance(a, Sym) for a in ints)) or all(not isinstance(a, (Sym, Ref)) for a in args)):
+            return NotImplemented                   # concrete recursion indices over concrete-length data: plain execution
         depth = self.rec_fuel.get(fn, 0)
         level = rec["fuel"] - depth
         if level >= 2:
@@ -172,6 +173,14 @@ class CallMixin:
                 raise PathEnd()
             if eq is not True:
                 self.p.assume(eq.t)
+            if isinstance(v, bytes) and len(v) == 0 and is_bytes(app):
+                # the application is the empty string on this path: say so in the byte theory too (unit of b_cat; the
+                # equation above only fixed its length)
+                for ch in as_chunks(app):
+                    if isinstance(ch, OB):
+                        self.p.assume(ch.t == B_empty)
+            if isinstance(v, (bytes, int, bool)):
+                return v                # base case of the recursion on this path: the concrete value says more than the application
         return app
 
     def opaque_app(self, fn, rec, args):
